@@ -410,6 +410,17 @@ func exRandomGraph(r *rng, o exGenOpts) *exGraph {
 		g.urls = append(g.urls, "http://"+host+"/api/ext.json")
 		g.schemaDoc = append(g.schemaDoc, false)
 	}
+	if !o.NoHTTP && !prefixSibling && r.chance(1, 6) {
+		// twins: documents with the SAME path as the root (or as each other) on another scheme / host / port — whether a
+		// reference leaves the current document is a matter of the whole URL, not of its path
+		ru, _ := url.Parse(root)
+		g.urls = append(g.urls, "http://"+host+ru.Path)
+		g.schemaDoc = append(g.schemaDoc, false)
+		if r.chance(1, 2) {
+			g.urls = append(g.urls, r.pick([]string{"http://" + host + ":8080" + ru.Path, "https://" + host + ru.Path, "http://x" + host + ru.Path}))
+			g.schemaDoc = append(g.schemaDoc, false)
+		}
+	}
 	if r.chance(1, 4) {
 		g.urls = append(g.urls, "file://"+p+"/r/a/s.json") // a document that is a schema
 		g.schemaDoc = append(g.schemaDoc, true)
